@@ -338,7 +338,8 @@ def _case(seed, i):
     if _large(i):
         # arrays of more than a thousand elements, several of them of the same size in one folder
         sizes = ({"i": 1100, "j": 1, "k": 1, "l": 1} if i % 24 == 10 else {"i": 37, "j": 31, "k": 1, "l": 1})
-        return mapgen.case_from_seed(seed, i, sizes=sizes, max_funcs=3, allow_internal=False)
+        # (element-wise only: a reduction over a thousand symbolic elements that is mapped again makes every term megabytes long)
+        return mapgen.case_from_seed(seed, i, sizes=sizes, max_funcs=3, allow_internal=False, allow_reduce=False)
     # (i % 4 == 0: functions WITHOUT MapSpec that return a list / array which later MapSpecs index - a mutable value in a
     #  single output file)
     return mapgen.case_from_seed(seed, i, allow_picker=(i % 3 == 2), allow_autogen=(i % 4 == 0))
